@@ -33,21 +33,51 @@ structure PSide (c : Cfg) (S : List Pkg) : Prop where
   depPv : ∀ p ∈ S, ∀ d ∈ p.deps, isConflict d = false → (pc d).version = [] ∨ (pv (pc d).version).isSome = true
   /-- providers are appended to `nameMap[virtual]` in the order of `c.order`: it has to know the members -/
   order : ∀ q ∈ S, q.name ∈ c.order
-  /-- no `!x` dependency of a member names something a member carries (by name or by a provide) -/
-  noConf : ∀ p ∈ S, ∀ d ∈ p.deps, isConflict d = true → ∀ q ∈ S, ¬ Carries q (pc (d.drop 1)).name
-  /-- not F09b: whatever provides a member's name is a non-member of that very name -/
-  hb : ∀ x ∈ c.u.all, ∀ pr ∈ x.provides, ∀ p ∈ S, provName pr = p.name → x.name = p.name ∧ x ∉ S
+  /-- not F09f / F09n: the candidate filter of `disqualifyProviders` accepts no member for a `!x` dependency of a member -/
+  noConf : ∀ p ∈ S, ∀ d ∈ p.deps, isConflict d = true → ∀ q ∈ S, Carries q (pc (d.drop 1)).name →
+    acceptsOne [] (pc (d.drop 1)).version (pc (d.drop 1)).dep [] (pc (d.drop 1)).pin none q = false
+  /-- not F09b: whatever provides a member's name has that very name -/
+  hb : ∀ x ∈ c.u.all, ∀ pr ∈ x.provides, ∀ p ∈ S, provName pr = p.name → x.name = p.name
+  /-- not F09m (first half): no member provides its own name -/
+  hself : ∀ m ∈ S, ∀ pr ∈ m.provides, provName pr ≠ m.name
   /-- not F09h: a dependency with a version text names nothing that a member provides with a version -/
   hh : ∀ p ∈ S, ∀ d ∈ p.deps, isConflict d = false → (pc d).version ≠ [] →
     ∀ q ∈ S, ∀ pr ∈ q.provides, provName pr = (pc d).name → (pc pr).version = []
   /-- two different members provide one name only without versions -/
   hv : ∀ m1 ∈ S, ∀ m2 ∈ S, m1 ≠ m2 → ∀ pr1 ∈ m1.provides, ∀ pr2 ∈ m2.provides, provName pr1 = provName pr2 →
     (pc pr1).version = [] ∧ (pc pr2).version = []
-  /-- no member provides a name twice -/
-  hd : ∀ m ∈ S, (m.provides.map provName).Pairwise (· ≠ ·)
+  /-- not F09m (second half): no member provides a name again after providing it with a version -/
+  hd : ∀ m ∈ S, m.provides.Pairwise (fun a b => (pc a).version ≠ [] → provName a ≠ provName b)
 
 /-- every pinned member comes from the repository pinned `P` -/
 def PinsIn (S : List Pkg) (P : Text) : Prop := ∀ p ∈ S, p.pin = [] ∨ p.pin = P
+
+/-- whatever provides a member's name is a NON-member of that name (`hb` + `hself` + one member per name) -/
+theorem hb2 {c : Cfg} {S : List Pkg} (sd : PSide c S) {x : Pkg} (hx : x ∈ c.u.all) {pr : Text} (hpr : pr ∈ x.provides)
+    {p : Pkg} (hp : p ∈ S) (hn : provName pr = p.name) : x.name = p.name ∧ x ∉ S := by
+  have hxn := sd.hb x hx pr hpr p hp hn
+  refine ⟨hxn, fun hxs => ?_⟩
+  have : x = p := sd.names x hxs p hp hxn
+  subst this
+  exact sd.hself x hxs pr hpr hn
+
+theorem filter_dq_nil {cands : List Pkg} {dq : List Nat} {ver : Text} {dep : Dep} {a p : Text} {i : Option Pkg} {x : Pkg}
+    (h : x ∈ filterPackages cands dq ver dep a p i) : x ∈ filterPackages cands [] ver dep a p i := by
+  unfold filterPackages at h ⊢
+  simp only at h ⊢
+  split
+  · next hany =>
+    simp only [hany, ↓reduceIte, List.mem_filter, Bool.and_eq_true] at h
+    simp only [List.mem_filter, Bool.and_eq_true]
+    exact ⟨h.1, by simp, h.2.2⟩
+  · next hany =>
+    simp only [hany, ↓reduceIte] at h
+    split
+    · next hpv => simp [hpv] at h
+    · next req hpv =>
+      simp only [hpv, List.mem_filter, Bool.and_eq_true] at h
+      simp only [List.mem_filter, Bool.and_eq_true]
+      exact ⟨⟨h.1.1, by simp, h.1.2.2⟩, h.2⟩
 
 /-! ### nameMap -/
 
@@ -57,7 +87,7 @@ theorem nm_member {c : Cfg} {S : List Pkg} (sd : PSide c S) {p x : Pkg} (hp : p 
   refine ⟨hu, ?_⟩
   rcases hc with h | ⟨pr, hpr, hn⟩
   · exact h
-  · exact (sd.hb x hu pr hpr p hp hn).1
+  · exact sd.hb x hu pr hpr p hp hn
 
 theorem own_in_nm {c : Cfg} {S : List Pkg} (ctx : PCtx c S) {q : Pkg} (hq : q ∈ S) : q ∈ c.nm q.name := by
   unfold Cfg.nm nameMap
@@ -100,7 +130,8 @@ theorem id_ne_of_not_mem {c : Cfg} {S : List Pkg} (ctx : PCtx c S) (sd : PSide c
   exact hxs (this ▸ hq)
 
 theorem disqualifyProviders_free {c : Cfg} {S : List Pkg} (ctx : PCtx c S) (sd : PSide c S) (x : Text) (dq : List Nat)
-    (hx : ∀ q ∈ S, ¬ Carries q (pc x).name) (hf : Free S dq) : Free S (disqualifyProviders c x dq) := by
+    (hx : ∀ q ∈ S, Carries q (pc x).name → acceptsOne [] (pc x).version (pc x).dep [] (pc x).pin none q = false)
+    (hf : Free S dq) : Free S (disqualifyProviders c x dq) := by
   unfold disqualifyProviders
   simp only
   split
@@ -111,7 +142,12 @@ theorem disqualifyProviders_free {c : Cfg} {S : List Pkg} (ctx : PCtx c S) (sd :
       intro q hq
       rw [← hl] at hq
       obtain ⟨hu, hc, _⟩ := cand_in hq
-      exact ⟨hu, fun hqs => hx q hqs hc⟩
+      refine ⟨hu, fun hqs => ?_⟩
+      have h0 := filter_dq_nil hq
+      rw [C02.filter_local, List.mem_filter] at h0
+      have := hx q hqs hc
+      rw [show pc x = parseConstraint x from rfl, h0.2] at this
+      cases this
     clear hl
     induction l generalizing dq with
     | nil => exact hf
@@ -139,10 +175,11 @@ theorem constrainStep_free {c : Cfg} {S : List Pkg} (ctx : PCtx c S) (sd : PSide
       · exact free_dqAdd hf hne
       · exact hf
 
-/-- a constraint that leaves the members alone: a conflict on a name no member carries, an unversioned constraint,
+/-- a constraint that leaves the members alone: a conflict whose candidate filter accepts no member, an unversioned constraint,
 or a versioned constraint on the name of a member that satisfies it -/
 def ConOK (S : List Pkg) (con : Text) : Prop :=
-  (∃ x, con = '!' :: x ∧ ∀ q ∈ S, ¬ Carries q (pc x).name) ∨
+  (∃ x, con = '!' :: x ∧ ∀ q ∈ S, Carries q (pc x).name →
+      acceptsOne [] (pc x).version (pc x).dep [] (pc x).pin none q = false) ∨
   ((∀ x, con ≠ '!' :: x) ∧ ((pc con).dep = .any ∨
      ∃ req, pv (pc con).version = some req ∧ ∃ q ∈ S, q.name = (pc con).name ∧
          ∃ act, pv q.version = some act ∧ (pc con).dep.satisfies act req = true))
@@ -289,7 +326,7 @@ theorem depOption_not_fail {c : Cfg} {S : List Pkg} (ctx : PCtx c S) (sd : PSide
             have hqp : q = picked := by
               rcases hcar with h | ⟨pr, hpr, hn⟩
               · exact sd.names q hq picked hps (h.trans hpn.symm)
-              · exact absurd hq (sd.hb q (ctx.sIn q hq) pr hpr picked hps (hn.trans hpn.symm)).2
+              · exact absurd hq (hb2 sd (ctx.sIn q hq) hpr hps (hn.trans hpn.symm)).2
             subst hqp
             obtain ⟨act, hact⟩ := Option.isSome_iff_exists.mp (sd.pvOk q hq)
             obtain ⟨req, hreq⟩ : ∃ v, pv (parseConstraint d).version = some v := by
@@ -299,7 +336,7 @@ theorem depOption_not_fail {c : Cfg} {S : List Pkg} (ctx : PCtx c S) (sd : PSide
             have hsc : depOption.scan (parseConstraint d).name req q.provides = some false := by
               apply scan_no_name
               intro pr hpr hn
-              exact (sd.hb q (ctx.sIn q hq) pr hpr q hq (hn.trans hpn.symm)).2 hq
+              exact sd.hself q hq pr hpr (hn.trans hpn.symm)
             have hs : (parseConstraint d).dep.satisfies act req = true := by
               rcases hv with hv | ⟨_, req2, act2, hreq2, hact2, hs⟩
               · rw [hv]; rfl
@@ -361,7 +398,7 @@ theorem conflictingVersion_spares {c : Cfg} {S : List Pkg} (ctx : PCtx c S) (sd 
     (hcar : Carries conflict (pc pr).name) : conflictingVersion (pc pr) conflict = some false := by
   have hnn : conflict.name ≠ (pc pr).name := by
     intro h
-    exact (sd.hb best (ctx.sIn best hb) pr hpr conflict hc h.symm).2 hb
+    exact (hb2 sd (ctx.sIn best hb) hpr hc h.symm).2 hb
   rcases hcar with h | ⟨pr2, hpr2, hn2⟩
   · exact absurd h hnn
   · have hv0 := (sd.hv best hb conflict hc (fun e => hne e.symm) pr hpr pr2 hpr2 hn2.symm).1
@@ -493,23 +530,23 @@ theorem pick_fold {c : Cfg} {S : List Pkg} (ctx : PCtx c S) (sd : PSide c S) {pk
     simp only [List.foldlM_cons]
     have hprov : prov ∈ pkg.provides := by rw [← hd]; simp
     have hpw := sd.hd pkg hpkg
-    rw [← hd, List.map_append, List.pairwise_append] at hpw
+    rw [← hd, List.pairwise_append] at hpw
     have hfree : lookupT s (parseConstraint prov).name = none := by
       cases hl : lookupT s (parseConstraint prov).name with
       | none => rfl
       | some m =>
         exfalso
-        rcases hs.src _ _ hl with h | ⟨rfl, h | ⟨pr, hpr, hn, _⟩⟩
+        rcases hs.src _ _ hl with h | ⟨rfl, h | ⟨pr, hpr, hn, hvpr⟩⟩
         · obtain ⟨hmS, halt, hmm⟩ := hsel _ _ h
           have hne : m ≠ pkg := by
             intro e
             rw [e, hnone] at hmm
             cases hmm
           rcases halt with hmn | ⟨pr2, hpr2, hn2, hv2⟩
-          · exact (sd.hb pkg (ctx.sIn pkg hpkg) prov hprov m hmS hmn.symm).2 hpkg
+          · exact (hb2 sd (ctx.sIn pkg hpkg) hprov hmS hmn.symm).2 hpkg
           · exact hv2 (sd.hv pkg hpkg m hmS (fun e => hne e.symm) prov hprov pr2 hpr2 hn2.symm).2
-        · exact (sd.hb m (ctx.sIn m hpkg) prov hprov m hpkg h).2 hpkg
-        · exact hpw.2.2 (provName pr) (List.mem_map.mpr ⟨pr, hpr, rfl⟩) (provName prov) (by simp) hn
+        · exact sd.hself m hpkg prov hprov h
+        · exact hpw.2.2 pr hpr prov (by simp) hvpr hn
     simp only [hfree]
     have hd2 : (done ++ [prov]) ++ rest = pkg.provides := by rw [← hd]; simp
     split
@@ -555,7 +592,7 @@ theorem pick_ok {c : Cfg} {S : List Pkg} (ctx : PCtx c S) (sd : PSide c S) {pkg 
     have : conflict = pkg := by
       rcases h2 with h2 | ⟨pr, hpr, hn, _⟩
       · exact sd.names conflict h1 pkg hpkg h2
-      · exact absurd h1 (sd.hb conflict (ctx.sIn conflict h1) pr hpr pkg hpkg hn).2
+      · exact absurd h1 (hb2 sd (ctx.sIn conflict h1) hpr hpkg hn).2
     subst this
     exact ⟨sel, by simp, hsel⟩
   | none =>
